@@ -24,7 +24,7 @@ struct ArgSpec {
    bool mandatory = false, multi = false, deprecated = false, mix = false;
    std::string vmode;                         // "" = default of the kind
    std::string card;                          // "" = default, none, max:n, exact:n, range:lo:hi
-   std::vector<std::string> checks;           // lower:3 upper:9 range:1:5 values:<csv>[:ic] minlen:n maxlen:n
+   std::vector<std::string> checks;           // lower:3 upper:9 range:1:5 values:<csv>[:ic] minlen:n maxlen:n pattern:<hex>
    std::vector<std::pair<char, std::string>> constraints;   // ('r'|'x', "k1;k2")
    char sep = 0;
    std::string init;                          // initial value (int: decimal, flag: 0/1, str: hex, vec: csv)
@@ -100,6 +100,7 @@ static void defineArg(Handler& h, const ArgSpec& a, Dest& d) {
       }
       else if (k == "minlen") t->addCheck(cpa::minLength(std::stoul(r)));
       else if (k == "maxlen") t->addCheck(cpa::maxLength(std::stoul(r)));
+      else if (k == "pattern") { std::string pat; vh::hexDecodeStr(r, pat); t->addCheck(cpa::pattern(pat)); }   // std::regex, ECMAScript
       else throw std::logic_error("harness: unknown check " + c);
    }
    for (auto& c : a.constraints) {
@@ -116,6 +117,8 @@ static void defineGlob(Handler& h, const GlobSpec& g) {
    if (g.kind == "allof") h.addConstraint(cpa::all_of(g.keys));
    else if (g.kind == "anyof") h.addConstraint(cpa::any_of(g.keys));
    else if (g.kind == "oneof") h.addConstraint(cpa::one_of(g.keys));
+   else if (g.kind == "differ") h.addConstraint(cpa::differ(g.keys));
+   else if (g.kind == "disjoint") h.addConstraint(cpa::disjoint(g.keys));
    else throw std::logic_error("harness: unknown handler constraint " + g.kind);
 }
 
